@@ -91,6 +91,8 @@ type CGCliStep struct {
 	// ViaLink: the model file is named through a symbolic link and "..": -d link/../viaK.json with
 	// link -> sub/deeper, which the kernel resolves to sub/viaK.json (a lexically cleaned path would not)
 	ViaLink bool `json:"via_link,omitempty"`
+	// ViaTilde: the model file is named by a relative path that starts with a tilde (~old/full0.json)
+	ViaTilde bool `json:"via_tilde,omitempty"`
 	// ViaPipe: the model file named with -d is a named pipe that delivers the model's bytes
 	ViaPipe bool `json:"via_pipe,omitempty"`
 	// Padded > 0: the model file is a copy made larger than Padded MiB by one extra method-less class
@@ -510,6 +512,9 @@ func genCGScenario(t *tape.Tape, tier string) *CGScenario {
 					st.Sparse = false
 				} else if t.Bool(1, 4) {
 					st.ViaPipe = true
+				} else if t.Bool(1, 5) {
+					st.ViaTilde = true
+					st.Sparse = false
 				}
 				if t.Bool(1, 300) {
 					st.Padded = []int{17, 65}[t.Pick(2)]
@@ -1063,6 +1068,16 @@ func runCG(id string, ctx *sim.RunCtx, data json.RawMessage) (*sim.Outcome, erro
 				if s.ViaLink {
 					file = fmt.Sprintf("link/../via%d.json", s.Model)
 					out.Faults["path-through-symlink-and-dotdot"]++
+				}
+				if s.ViaTilde && !s.UseDefault && !s.ViaLink {
+					tf := filepath.Join("~old", file)
+					if raw, err := os.ReadFile(filepath.Join(cwd, file)); err == nil {
+						os.MkdirAll(filepath.Join(cwd, "~old"), 0755)
+						if os.WriteFile(filepath.Join(cwd, tf), raw, 0644) == nil {
+							file = tf
+							out.Faults["model-path-starts-with-tilde"]++
+						}
+					}
 				}
 				if s.Padded > 0 && !s.UseDefault && !s.ViaLink {
 					padded := fmt.Sprintf("padded%d_%d.json", s.Model, s.Padded)
